@@ -16,7 +16,7 @@ Module for utilities.
 import sys
 import copy as cp
 from typing import Any, List, Optional, Text
-from threading import Timer
+from threading import Lock, Timer
 from time import time
 from datetime import timedelta
 
@@ -229,6 +229,8 @@ class ProgressBar(BaseProgress):
         self.title = title
         self._length = PROGRESS_BAR_LENGTH
         self._step = None
+        self._lock = Lock()
+        self._stopped = False
 
     def enter(self):
         """Context enter. """
@@ -262,7 +264,9 @@ class ProgressBar(BaseProgress):
 
     def exit(self):
         """Context exit. """
-        self._timer.cancel()
+        with self._lock:
+            self._stopped = True
+            self._timer.cancel()
         self._print_status()
         delta_t = time() - self._start_time
         print("\nElapsed time: {:.1f}s".format(delta_t),
@@ -271,9 +275,12 @@ class ProgressBar(BaseProgress):
 
     def update(self, step=None):
         """Update the progress. """
-        self._timer.cancel()
-        self._timer = Timer(1.0, self.update)
-        self._timer.start()
+        with self._lock:
+            if self._stopped:
+                return
+            self._timer.cancel()
+            self._timer = Timer(1.0, self.update)
+            self._timer.start()
         if step is not None:
             self._step = step
         self._print_status()
